@@ -49,7 +49,9 @@ LOAD_NOTE = ('Trusted: PyYAML composer and SafeConstructor as modelled (scalar '
              'constructor table taken from PyYAML itself); user hooks drawn '
              'from the catalogue\'s effect vocabulary; documents bounded by '
              'node occurrences per class model; atoms are abstract '
-             'representatives concretised by the renderer.')
+             'representatives concretised by the renderer. Class models: the '
+             'hand-written families of harness/catalogue.py plus twelve '
+             'machine-generated hierarchies (fixed seeds).')
 LOAD_TECH = ('TLA+ state machine of compose/process/construct over a mutable '
              'node graph (YatimlLoad) + declarative reference (LoadRef), '
              'explored exhaustively by TLC within per-model bounds; every '
